@@ -100,6 +100,16 @@ verif_proof! { [C37]
     #[kani::stub(alloc::fmt::format, crate::verif_env::stub_format)]
     fn c37_dispatch_raw_3() { dispatch_raw::<3>(0, 1); }
 }
+verif_proof! { [C37]
+    #[kani::unwind(5)]
+    #[kani::stub(alloc::fmt::format, crate::verif_env::stub_format)]
+    fn c37_dispatch_relative_2() { dispatch_raw::<2>(1, 1); }
+}
+verif_proof! { [C37]
+    #[kani::unwind(5)]
+    #[kani::stub(alloc::fmt::format, crate::verif_env::stub_format)]
+    fn c37_dispatch_absolute_2() { dispatch_raw::<2>(0, 0); }
+}
 // strategies with a float division (cliff, combined): one division per pair of scores
 verif_proof! { [C37]
     #[kani::unwind(5)]
